@@ -7,6 +7,9 @@ VERIF = os.path.dirname(os.path.dirname(os.path.abspath(__file__)))
 SCRATCH_ROOT = os.environ.get("VERIF_SCRATCH", "/dev/shm")
 OUT = os.path.join(VERIF, "out")
 EVID = os.path.join(VERIF, "evidence")
+if os.environ.get("VERIF_REPO") and os.path.realpath(os.environ["VERIF_REPO"]) != "/repo":
+    # sensitivity runs against a scratch copy with a seeded change must not overwrite the evidence of the real tree
+    EVID = os.path.join(OUT, "evidence-of-scratch-trees")
 NWORKERS = int(os.environ.get("VERIF_WORKERS", "16"))
 
 MASK = (1 << 64) - 1
